@@ -888,17 +888,24 @@ pub(super) fn translate_ident(
 
 pub(super) fn translate_ident_part(ident: String, ctx: &Context) -> sql_ast::Ident {
     let is_bare = valid_ident().is_match(&ident);
+    // sqlparser's `EscapeQuotedString` leaves a doubled quote and backslash-quote
+    // in the name un-doubled (it takes them for quotes that are already escaped),
+    // so `a""b` and `a"b` would both be emitted as "a""b". Double every quote
+    // character here; sqlparser then finds only doubled quotes and prints them
+    // unchanged.
+    let quoted = |ident: String| {
+        let q = ctx.dialect.ident_quote();
+        sql_ast::Ident::with_quote(q, ident.replace(q, &format!("{q}{q}")))
+    };
     match ctx.dialect.ident_quoting_style() {
         IdentQuotingStyle::ConditionallyQuoted => {
             if is_bare && !keywords::is_keyword(&ident, &ctx.dialect_enum) {
                 sql_ast::Ident::new(ident)
             } else {
-                sql_ast::Ident::with_quote(ctx.dialect.ident_quote(), ident)
+                quoted(ident)
             }
         }
-        IdentQuotingStyle::AlwaysQuoted => {
-            sql_ast::Ident::with_quote(ctx.dialect.ident_quote(), ident)
-        }
+        IdentQuotingStyle::AlwaysQuoted => quoted(ident),
     }
 }
 
